@@ -1,7 +1,7 @@
 """C01 - query results equal exactly the stored points that satisfy the query (DESIGN 4, C01)."""
 
 from .. import observers, qast, refmodel, world as W
-from .base import E1Check, viol, CFG4
+from .base import E1Check, viol, closure_configs, CFG4
 
 
 def std_ops(alpha, cfg, tier, with_reads=True):
@@ -62,6 +62,11 @@ class C01(E1Check):
 
     def bounds(self):
         return {"N": 3, "D": 4} if self.tier == "quick" else {"N": 4, "D": 5, "max_states": 40000}
+
+    def configs(self):
+        # the depth-bounded runs plus runs to the fixpoint within 2 stored points (histories of any length)
+        extra = [] if self.tier == "quick" else closure_configs(("mem", "csv"))
+        return super().configs() + extra
 
     def budget(self):
         return 600 if self.tier == "quick" else 3 * 3600
